@@ -399,8 +399,14 @@ def run_unit_verus(unit, tier):
     # some seeds is a brittle proof, reported as undecided and never as a violation.
     if res["failed"]:
         confirmed = set(ob["id"] for ob in res["failed"])
-        for seed in (1, 2):
-            rr = run_verus(path, 30, ["--smt-option", "smt.random_seed=%d" % seed])
+        # ... and whatever unrelated declarations surround it: the third re-run verifies the same text with three unused
+        # declarations added in front (this changes the solver's symbol numbering the way an unrelated prelude edit does)
+        padded = path.replace(".rs", "__padded.rs")
+        pad = "".join("pub struct Pad%d(pub u64); impl Pad%d { pub open spec fn pad(&self) -> bool { self.0 > %d } } " % (i, i, i) for i in range(3))
+        with open(padded, "w") as fh:
+            fh.write(open(path).read().replace("verus! {", "verus! { " + pad, 1))
+        for seed, pth in ((1, path), (2, path), (0, padded)):
+            rr = run_verus(pth, 30, ["--smt-option", "smt.random_seed=%d" % seed])
             ids = set()
             if rr.get("json") and not rr.get("timeout"):
                 for d in rr["diags"]:
@@ -414,9 +420,13 @@ def run_unit_verus(unit, tier):
             confirmed &= ids
         for ob in res["failed"]:
             if ob["id"] not in confirmed:
-                res["undecided"].append("brittle proof (rejected under the default solver seed, accepted under another): %s" % ob["id"])
+                res["undecided"].append("brittle proof (rejected under the default solver seed, accepted under another seed or with unrelated declarations added): %s" % ob["id"])
         res["failed"] = [ob for ob in res["failed"] if ob["id"] in confirmed]
-        res["seed_retries"] = 2
+        res["seed_retries"] = 3
+        try:
+            os.remove(padded)
+        except OSError:
+            pass
     # ---- vacuity guards: every function under contract must FAIL both canaries
     res["canary"] = {"start": canary_check(rs, gs, "CANARY-START"), "end": canary_check(re_, ge, "CANARY-END")}
     if rlp is not None:
